@@ -4,15 +4,23 @@
 import json, os, re, subprocess, sys, glob
 V = os.path.dirname(os.path.dirname(os.path.abspath(__file__)))
 out = {}
+RES = os.path.join(V, "seeded", "RESULTS.json")
+if len(sys.argv) > 1 and os.path.exists(RES):
+    out = json.load(open(RES))   # partial re-run: keep the other entries
 for d in sorted(glob.glob(os.path.join(V, "seeded", "C??"))):
     pid = os.path.basename(d)
-    for n, (pf, mf) in enumerate((("patch.diff", "meta.json"), ("patch2.diff", "meta2.json")), 1):
-        p = os.path.join(d, pf)
+    cands = [("%d" % n, os.path.join(d, pf), os.path.join(d, mf)) for n, (pf, mf) in enumerate((("patch.diff", "meta.json"), ("patch2.diff", "meta2.json")), 1)]
+    cands += [("r2-%d" % n, os.path.join(d, "r2", pf), os.path.join(d, "r2", mf)) for n, (pf, mf) in
+              enumerate((("patch.diff", "meta.json"), ("patch2.diff", "meta2.json"), ("patch3.diff", "meta3.json")), 1)]
+    only = [a for a in sys.argv[1:] if not a.startswith("-")]
+    for n, p, mfp in cands:
         if not os.path.exists(p):
+            continue
+        if only and not any(o in "%s/%s" % (pid, n) for o in only):
             continue
         meta = {}
         try:
-            meta = json.load(open(os.path.join(d, mf)))
+            meta = json.load(open(mfp))
         except Exception:
             pass
         r = subprocess.run([os.path.join(V, "tools", "tryseed.py"), p, "all"], capture_output=True, text=True)
@@ -21,8 +29,8 @@ for d in sorted(glob.glob(os.path.join(V, "seeded", "C??"))):
             m = re.match(r"^(C\d\d) rc=(\d) (.*)$", line)
             if m:
                 fired[m.group(1)] = m.group(3).split()[:6]
-        out["%s/%d" % (pid, n)] = {"target": pid, "summary": meta.get("summary", ""), "files": meta.get("files", []), "fired": fired,
+        out["%s/%s" % (pid, n)] = {"target": pid, "summary": meta.get("summary", ""), "files": meta.get("files", []), "fired": fired,
                                     "caught_by_own_check": pid in fired, "caught": bool(fired)}
         print(pid, n, sorted(fired) or "MISSED", flush=True)
-json.dump(out, open(os.path.join(V, "seeded", "RESULTS.json"), "w"), indent=1)
+json.dump(out, open(RES, "w"), indent=1, sort_keys=True)
 print("caught %d / %d; by own check %d" % (sum(v["caught"] for v in out.values()), len(out), sum(v["caught_by_own_check"] for v in out.values())))
